@@ -58,6 +58,20 @@ pub proof fn ks_run_by_states(k: KStep, s: KAbs, n: nat, states: spec_fn(int) ->
     }
 }
 
+// a1 is reached from a0 by whole steps of the generator (what a closure can do to a backend, and a core to itself)
+pub open spec fn ks_reach(k: KStep, a0: KAbs, a1: KAbs) -> bool { exists |n: nat| a1 == #[trigger] ks_run(k, a0, n).0 }
+
+pub proof fn ks_reach_run(k: KStep, a0: KAbs, n: nat)
+    ensures ks_reach(k, a0, ks_run(k, a0, n).0)
+{}
+
+pub proof fn ks_reach_one(k: KStep, a0: KAbs)
+    ensures ks_reach(k, a0, k(a0).0)
+{
+    reveal_with_fuel(ks_run, 2);
+    assert(ks_run(k, a0, 1).0 == k(a0).0);
+}
+
 // StreamCipherBackend / StreamCipherClosure / StreamCipherCore are extracted from the pinned `cipher` crate
 // (contracts/dep_stream.py): their default methods and the Apply*/Write* drivers are verified text (D3).
 
@@ -72,21 +86,26 @@ impl StreamCipherCounter for u128 { open spec fn cval(c: u128) -> int { c as int
 pub trait StreamCipherSeekCore: StreamCipherCore {
     type Counter: StreamCipherCounter;
     spec fn counter_val(c: Self::Counter) -> int;
-    // the generator state at block position 0, the current block position, and the counter modulus
-    spec fn origin(&self) -> KAbs;
+    // the current block position and the counter modulus; the generator state at block position 0 is
+    // StreamCipherCore::korigin()
     spec fn block_pos(&self) -> int;
     spec fn pos_modulus() -> int;
     // coherence of position and keystream (C10): the current state is the origin advanced by block_pos
     proof fn lemma_pos_coherent(&self)
-        ensures self.kabs().base == self.origin().base,
-                self.kabs().pos == (self.origin().pos + self.block_pos()) % Self::pos_modulus();
+        ensures self.kabs().base == self.korigin().base,
+                self.kabs().pos == (self.korigin().pos + self.block_pos()) % Self::pos_modulus(),
+                0 <= self.korigin().pos < Self::pos_modulus(),
+                0 <= self.block_pos() < Self::pos_modulus();
+    // one keystream block advances the position by one (mod the counter modulus) and keeps the base
+    proof fn lemma_step_law(&self)
+        ensures forall |a: KAbs| (#[trigger] self.kstep()(a)).0 == (KAbs { base: a.base, pos: (a.pos + 1) % Self::pos_modulus() });
 
     fn get_block_pos(&self) -> (r: Self::Counter)
         ensures Self::counter_val(r) == self.block_pos();
 
     fn set_block_pos(&mut self, pos: Self::Counter)
         ensures
-            final(self).origin() == old(self).origin(),
+            final(self).korigin() == old(self).korigin(),
             final(self).block_pos() == Self::counter_val(pos),
             final(self).kstep() == old(self).kstep();
 }
